@@ -13,6 +13,7 @@ CONSTRAINT DepthBound
 VIEW vw
 INVARIANT TypeOK
 INVARIANT DirtyOnlyInRW
+INVARIANT W2WellFormed
 INVARIANT ReopenEqualsLive
 INVARIANT LinksToNodes
 INVARIANT OneParent
@@ -24,4 +25,5 @@ INVARIANT NoOrphansWhenClosed
 PROPERTY Footprint
 PROPERTY FrozenFile
 PROPERTY OptStaysStripped
+PROPERTY FreshOnlyWhenTaken
 CHECK_DEADLOCK FALSE
